@@ -226,6 +226,8 @@ def run(ctx: Ctx):
     okr = bool(rets) and all(u(r.value.elts[1]).endswith(".xmin") and u(r.value.elts[2]).endswith(".xmax") for r in rets)
     col.ob("G2", "S5", f"{rel}::read_textgrid::returns(transcript, xmin, xmax)", okr,
            f"read_textgrid returns {[u(r.value) for r in rets]}", rel, rt.line)
+    # ---- S6 a loop-carried accumulator whose length is asserted at emission is drained there -------------------------
+    _drained_accumulators(ctx)
     plumbing(ctx, "S1")
     return dict(
         explanation=(
@@ -243,10 +245,71 @@ def run(ctx: Ctx):
     )
 
 
+def _drained_accumulators(ctx: Ctx):
+    """S6: inside a loop, `assert len(E) == k` on an accumulator attribute E of a loop-carried object, followed by the
+    emission of its content, describes a protocol "fill, emit, start over". The block must therefore reset E
+    (`E = []`, `E.clear()`, `del E[:]`) after the emission - or the object must be created afresh in that block -
+    otherwise the second emission in the same input trips the assertion (or, under -O, repeats the first content)."""
+    col, pkg = ctx.col, ctx.pkg
+    n_sites = 0
+    for f in ctx.owned():
+        pm = parent_map(f.node)
+        rel = f.module.relname
+        for a in own_nodes(f.node):
+            if not (isinstance(a, ast.Assert) and isinstance(a.test, ast.Compare) and isinstance(a.test.left, ast.Call)
+                    and call_name(a.test.left) == "len" and a.test.left.args
+                    and isinstance(a.test.left.args[0], ast.Attribute) and isinstance(a.test.ops[0], ast.Eq)
+                    and isinstance(a.test.comparators[0], ast.Constant)):
+                continue
+            # inside a loop?
+            cur, in_loop = a, False
+            while cur is not None:
+                cur = pm.get(cur)
+                if isinstance(cur, (ast.While, ast.For)):
+                    in_loop = True
+                    break
+            if not in_loop:
+                continue
+            E = a.test.left.args[0]
+            root = E.value
+            blk = None
+            par = pm.get(a)
+            for fld in ("body", "orelse"):
+                b = getattr(par, fld, None)
+                if isinstance(b, list) and any(x is a for x in b):
+                    blk = b
+            if blk is None or not isinstance(root, ast.Name):
+                continue
+            i = [k for k, x in enumerate(blk) if x is a][0]
+            after = blk[i + 1:]
+            emitted = any(u(E) in u(st) for st in after if not (isinstance(st, ast.Assign) and u(st.targets[0]) == u(E)))
+            if not emitted:
+                continue
+            n_sites += 1
+            reset = False
+            for st in after:
+                if isinstance(st, ast.Assign) and any(u(t) == u(E) for t in st.targets) and isinstance(st.value, (ast.List, ast.Call)) \
+                        and (u(st.value) in ("[]", "list()")):
+                    reset = True
+                if isinstance(st, ast.Expr) and isinstance(st.value, ast.Call) and u(st.value.func) == u(E) + ".clear":
+                    reset = True
+                if isinstance(st, ast.Delete) and any(u(t).startswith(u(E)) for t in st.targets):
+                    reset = True
+            fresh = any(isinstance(st, ast.Assign) and any(u(t) == u(root) for t in st.targets) and isinstance(st.value, ast.Call)
+                        and isinstance(st.value.func, ast.Name) and st.value.func.id[:1].isupper() for st in blk[:i])
+            col.ob("G10", "S6", f"{rel}::{f.qualname}::emitted-accumulator-is-drained[{u(E)}]", reset or fresh,
+                   f"`{u(a)}` holds at the first emission only: `{u(E)}` belongs to an object that survives the loop "
+                   f"iteration and is not reset after its content is emitted, so a second group in the same input "
+                   f"fails the assertion (or repeats the first group when assertions are disabled)", rel, a.lineno)
+    col.floor("asserted_accumulators", n_sites, 1)
+
+
 def _mutants():
     from selftest.mutate import Mutant as M
     P = "_parsing.py"
     return [
+        M("root-alternates-not-drained", "_parsing.py", "transcript.append((alt_tree.tokens[0], -1, -1))\n                alt_tree.tokens = []", "transcript.append((alt_tree.tokens[0], -1, -1))", "emitted-accumulator-is-drained"),
+        M("twin:drained-by-clear", "_parsing.py", "transcript.append((alt_tree.tokens[0], -1, -1))\n                alt_tree.tokens = []", "transcript.append((alt_tree.tokens[0], -1, -1))\n                alt_tree.tokens.clear()", "", twin=True),
         M("imap-unordered", P, "transcripts = pool.imap(_trn_line_to_transcript", "transcripts = pool.imap_unordered(_trn_line_to_transcript", "order-preserving"),
         M("parallel-ignores-warn", P, "((line, warn) for line in trn), chunk_size)", "((line, False) for line in trn), chunk_size)", "serial-and-parallel"),
         M("write-ctm-drops-utt2wc", P, "return write_ctm(transcripts, ctm, utt2wc)", "return write_ctm(transcripts, ctm)", "redispatch(utt2wc)"),
